@@ -2,6 +2,8 @@ package c04
 
 import (
 	"encoding/json"
+	"fmt"
+	"runtime"
 	"sync"
 	"sync/atomic"
 	"testing"
@@ -16,6 +18,7 @@ func init() {
 	kinds["queue-hammer"] = func(t ev.TB, raw json.RawMessage) {
 		if tt, ok := t.(*testing.T); ok {
 			TestHammerOneKey(tt)
+			TestHammerFreshSeconds(tt)
 		}
 	}
 }
@@ -89,5 +92,77 @@ func TestHammerOneKey(t *testing.T) {
 	}
 	if lost > 0 {
 		ev.Fail(t, "queue-hammer", map[string]interface{}{"rounds": rounds}, "%d registrations on the contended key were not resolved exactly once, or expired before their deadline", lost)
+	}
+}
+
+// TestHammerFreshSeconds: the timeout list under the schedule the generated programs reach
+// least — the first two entries of a deadline-second that has no bucket yet arrive from two
+// goroutines at the same moment (released by a spinning barrier), with different exact
+// deadlines inside that second; each goroutine then removes its own entry again (what an
+// acknowledgement does) and after all rounds a sweep far in the future must report nothing:
+// a removal that returned has removed. Then the same with the entries kept: the final sweep
+// reports every one exactly once.
+func TestHammerFreshSeconds(t *testing.T) {
+	rounds := ev.Scale(100000, 400000)
+	for _, impl := range []string{"pq", "skip"} {
+		for _, keep := range []bool{false, true} {
+			c := map[string]interface{}{"scenario": "racing first inserts of fresh deadline-seconds", "impl": impl, "rounds": rounds, "keep": keep}
+			ev.Case(true, c, "hammer-fresh-seconds")
+			ev.Count("hammer_rounds", int64(rounds))
+			l := newList(impl)
+			var count, gen int32
+			wait := func() {
+				g := atomic.LoadInt32(&gen)
+				if atomic.AddInt32(&count, 1) == 2 {
+					atomic.StoreInt32(&count, 0)
+					atomic.AddInt32(&gen, 1)
+					return
+				}
+				for i := 0; atomic.LoadInt32(&gen) == g; i++ {
+					if i%64 == 63 {
+						runtime.Gosched()
+					}
+				}
+			}
+			var wg sync.WaitGroup
+			for g := 0; g < 2; g++ {
+				wg.Add(1)
+				go func(g int) {
+					defer wg.Done()
+					for r := 0; r < rounds; r++ {
+						// the goroutine that tends to arrive second carries the earlier deadline in half of the rounds
+						off := 100 * time.Millisecond
+						if (g+r)%2 == 0 {
+							off = 400 * time.Millisecond
+						}
+						d := t0.Add(time.Duration(r)*time.Second + off)
+						key := fmt.Sprintf("g%d/%d", g, r)
+						wait()
+						l.Insert(key, d)
+						if !keep {
+							l.Delete(key, d)
+						}
+					}
+				}(g)
+			}
+			wg.Wait()
+			got := l.Expire(t0.Add(time.Duration(rounds+10) * time.Second))
+			if !keep && len(got) != 0 {
+				ev.Fail(t, "queue-hammer", c, "%s list: %d entries were reported by the final sweep although every one of them had been removed again (first: %v)", impl, len(got), got[0])
+			}
+			if keep {
+				seen := map[string]int{}
+				for _, v := range got {
+					seen[v.(string)]++
+				}
+				for g := 0; g < 2; g++ {
+					for r := 0; r < rounds; r++ {
+						if n := seen[fmt.Sprintf("g%d/%d", g, r)]; n != 1 {
+							ev.Fail(t, "queue-hammer", c, "%s list: entry g%d/%d was reported %d times by the final sweep, want exactly 1", impl, g, r, n)
+						}
+					}
+				}
+			}
+		}
 	}
 }
